@@ -336,11 +336,41 @@ theorem segOk_save (f : String) (pol : Policy) (ex : List CStr) (a : CStr)
     · split <;> simp [segOk, st, s1, k1, k2]
     · trivial
 
+theorem segOk_edWrite (f : String) (pol : Policy) (b : CStr) (ld : Bool) (apps : List Approval)
+    (hop : opOk f "ed_start" = true) : segOk f apps (edWrite pol b ld) := by
+  unfold edWrite ask
+  simp only
+  split
+  · cases h2 : checkValidPath true (pol.verdict b) b with
+    | none => simp [segOk, hop]
+    | some Q =>
+      obtain ⟨a2, l2, s2, _⟩ := approved true _ _ _ h2
+      simp only [List.singleton_append, segOk, a2, Option.toList_some, hop, true_and]
+      cases ld with
+      | false => simp [segOk]
+      | true =>
+        simp only [↓reduceIte, segOk, s2, true_and, and_true]
+        exact any_okBy _ _ _ _ ⟨true, Q⟩ (by simp) l2 (covers_self Q) (by simp)
+  · trivial
+
+theorem segOk_ed (f : String) (pol : Policy) (ex : List CStr) (a b : CStr) (apps : List Approval)
+    (hop : opOk f "ed_start" = true) : segOk f apps (edEfun pol ex a b) := by
+  unfold edEfun ask
+  simp only
+  cases h1 : checkValidPath true (pol.verdict a) a with
+  | none =>
+    simp only [List.singleton_append, segOk, hop, true_and]
+    exact segOk_edWrite f pol b false _ hop
+  | some P =>
+    obtain ⟨a1, l1, s1, _⟩ := approved false _ _ _ h1
+    simp only [List.singleton_append, segOk, a1, Option.toList_some, hop, true_and, s1]
+    exact ⟨any_okBy _ _ _ _ ⟨false, P⟩ (by simp) l1 (covers_self P) (by simp), segOk_edWrite f pol b _ _ hop⟩
+
 /-- the file efuns of the system-style model (= the keys of the oracle's operation-name table) -/
 def efunNames : List String :=
   ["read_file", "write_file", "rm", "mkdir", "rmdir", "file_size", "file_length", "tail", "read_bytes",
    "read_buffer", "write_bytes", "write_buffer", "restore_object", "dumpallobj", "dump_prog", "get_dir", "stat",
-   "rename", "link", "cp", "save_object"]
+   "rename", "link", "cp", "save_object", "ed"]
 
 example : efunNames.all (fun f => (opNames.map (·.1)).contains f) = true ∧
     (opNames.map (·.1)).all (fun f => efunNames.contains f) = true := by decide
@@ -348,7 +378,7 @@ example : efunNames.all (fun f => (opNames.map (·.1)).contains f) = true ∧
 theorem efun_segOk (pol : Policy) (ex : List CStr) (efun : String) (a b : CStr) (h : efun ∈ efunNames) :
     segOk efun [] (efunEvents pol ex efun a b) := by
   simp only [efunNames, List.mem_cons, List.not_mem_nil, or_false] at h
-  rcases h with h | h | h | h | h | h | h | h | h | h | h | h | h | h | h | h | h | h | h | h | h <;> subst h <;>
+  rcases h with h | h | h | h | h | h | h | h | h | h | h | h | h | h | h | h | h | h | h | h | h | h <;> subst h <;>
     simp only [efunEvents]
   · exact segOk_single _ _ _ _ _ _ _ _ (by decide) (by decide)
   · exact segOk_single _ _ _ _ _ _ _ _ (by decide) (by decide)
@@ -371,6 +401,7 @@ theorem efun_segOk (pol : Policy) (ex : List CStr) (efun : String) (a b : CStr) 
   · exact segOk_rename _ _ _ _ _ _ _ (by decide) (by decide)
   · exact segOk_cp _ _ _ _ _ _ (by decide)
   · exact segOk_save _ _ _ _ _ (by decide)
+  · exact segOk_ed _ _ _ _ _ _ (by decide)
 
 /-- **model_satisfies_spec**: for every file efun, every argument string(s), every master policy and every
     file-system content, the oracle finds nothing to object to in the model's trace. -/
@@ -379,7 +410,7 @@ theorem model_satisfies_spec (pol : Policy) (ex : List CStr) (efun : String) (ar
     judgeEv (.call efun whoObj args :: efunEvents pol ex efun a b) = [] := by
   apply judge_of_segOk _ _ _ _ (efun_segOk pol ex efun a b h)
   simp only [efunNames, List.mem_cons, List.not_mem_nil, or_false] at h
-  rcases h with h | h | h | h | h | h | h | h | h | h | h | h | h | h | h | h | h | h | h | h | h <;> subst h <;> decide
+  rcases h with h | h | h | h | h | h | h | h | h | h | h | h | h | h | h | h | h | h | h | h | h | h <;> subst h <;> decide
 
 /-- non-vacuity: a trace with real events, and the oracle does object to an unmediated touch -/
 example : (efunEvents .allow [] "rename" (str "/d/f.txt") (str "/d/sub")).length = 6 := by decide
